@@ -233,6 +233,19 @@ class CannotMerge(Exception):
     pass
 
 
+_phi = itertools.count(1)
+PHI_DEFS = None      # list collecting definitional equalities while merge_states runs
+
+
+def _named(term):
+    """phi node: name a merged value by a fresh constant (keeps terms small; the definition goes to the path condition)."""
+    if PHI_DEFS is None:
+        return term
+    v = z3.Const('phi#%d' % next(_phi), term.sort())
+    PHI_DEFS.append(v == term)
+    return v
+
+
 def merge_vals(c, a, b):
     if a is b:
         return a
@@ -248,13 +261,14 @@ def merge_vals(c, a, b):
         if a.obj is not b.obj or a.path != b.path or len(a.idx) != len(b.idx):
             raise CannotMerge()
         idx = tuple(x if (isinstance(x, int) and isinstance(y, int) and x == y) or (not isinstance(x, int) and not isinstance(y, int) and x.eq(y))
-                    else simp(z3.If(c, _t(x, a, b), _t(y, a, b))) for x, y in zip(a.idx, b.idx))
-        return a.with_(idx=idx, isnull=simp(z3.If(c, a.isnull, b.isnull)))
+                    else _named(z3.If(c, _t(x, a, b), _t(y, a, b))) for x, y in zip(a.idx, b.idx))
+        isn = a.isnull if a.isnull.eq(b.isnull) else _named(z3.If(c, a.isnull, b.isnull))
+        return a.with_(idx=idx, isnull=isn)
     if a.eq(b):
         return a
     if a.sort() != b.sort():
         raise CannotMerge()
-    return z3.If(c, a, b)
+    return _named(z3.If(c, a, b))
 
 
 def _t(x, a, b):
@@ -269,12 +283,27 @@ def _t(x, a, b):
 
 def merge_states(s1, s2, prefix_len):
     """merge two states that share pc[:prefix_len]. Raises CannotMerge."""
+    global PHI_DEFS
     exe = s1.exe
     c1 = z3.And(*s1.pc[prefix_len:]) if len(s1.pc) > prefix_len else z3.BoolVal(True)
     c2 = z3.And(*s2.pc[prefix_len:]) if len(s2.pc) > prefix_len else z3.BoolVal(True)
     out = State(exe)
     out.pc = list(s1.pc[:prefix_len])
-    out.pc.append(simp(z3.Or(c1, c2)))
+    out.pc.append(z3.Or(c1, c2))
+    # the selector of the phi nodes: a fresh Boolean equal to "came from s1"
+    sel = z3.Bool('sel#%d' % next(_phi))
+    out.pc.append(sel == c1)
+    c1 = sel
+    saved, PHI_DEFS = PHI_DEFS, []
+    try:
+        _merge_into(out, s1, s2, c1, exe)
+        out.pc.extend(PHI_DEFS)
+    finally:
+        PHI_DEFS = saved
+    return out
+
+
+def _merge_into(out, s1, s2, c1, exe):
     keys = set(s1.heap) | set(s2.heap)
     for key in keys:
         a, b = s1.heap.get(key), s2.heap.get(key)
@@ -303,7 +332,7 @@ def merge_states(s1, s2, prefix_len):
                 if isinstance(v, Ptr):
                     continue
                 tb = _nested_store(tb, [s1._ix(i) for i in cidx], v)
-            st.arr = ta if ta.eq(tb) else z3.If(c1, ta, tb)
+            st.arr = ta if ta.eq(tb) else _named(z3.If(c1, ta, tb))
             for cidx in set(a.conc) | set(b.conc):
                 va, vb = a.conc.get(cidx), b.conc.get(cidx)
                 if isinstance(va, Ptr) or isinstance(vb, Ptr):
@@ -326,7 +355,14 @@ def merge_states(s1, s2, prefix_len):
                     ct = exe.leaf_type(obj, key[1])
                     va = va if va is not None else exe.init_cell(obj, key[1], cidx, ct, a.gen)
                     vb = vb if vb is not None else exe.init_cell(obj, key[1], cidx, ct, b.gen)
-                st.conc[cidx] = merge_vals(c1, va, vb)
+                try:
+                    st.conc[cidx] = merge_vals(c1, va, vb)
+                except CannotMerge:
+                    if obj.kind != 'local':
+                        raise
+                    # a (dead) local pointer variable that points to different objects on the two paths:
+                    # forget it (a later read yields an uninitialised pointer, which is reported if dereferenced)
+                    continue
         out.heap[key] = st
     for g in set(s1.ghost) | set(s2.ghost):
         va, vb = s1.ghost.get(g), s2.ghost.get(g)
